@@ -703,6 +703,12 @@ func (s *SSEServer) handleNotificationMessage(ctx context.Context, rawMessage js
 
 // handleNotification processes notifications (can be extended for different notification types).
 func (s *SSEServer) handleNotification(ctx context.Context, notification *JSONRPCNotification, session *sseSession) error {
+	// notifications/initialized completes the handshake: from then on the session may be sent
+	// notifications (sendNotificationToSession refuses sessions that are not initialized).
+	if notification.Method == MethodNotificationsInitialized && session != nil {
+		session.Initialize()
+	}
+
 	// Check if there's a registered handler for this notification method.
 	s.notificationMu.RLock()
 	handler, exists := s.notificationHandlers[notification.Method]
